@@ -14,6 +14,9 @@ const (
 	MaxCompiledWasmCodeSize = 1 * 1024 * 1024 // 1MB
 
 	MaximumOwasmGas = 8000000
+
+	// MaxDataSize is the upper bound of the max calldata / max report data size parameters.
+	MaxDataSize = 1 * 1024 * 1024 // 1MB
 )
 
 var DoNotModifyBytes = []byte(DoNotModify)
